@@ -211,6 +211,9 @@ def caller_spellings(key, rng, n=3):
     return out[:n]
 
 
+FAR = 15000          # 150 m: far beyond anything jumped or thrown
+
+
 def shard(ctx, payload):
     sysname = payload[0]
     thorough = ctx.tier == 'thorough'
@@ -233,6 +236,10 @@ def shard(ctx, payload):
         hi = mark_range(row)
         base = {'system': 'athlon', 'gender': g, 'event': e, 'esaa': esaa}
         sweep(dict(base, age=None), 0, hi, full=True)
+        if kind != 'timed' and hi < FAR:
+            # far beyond anything jumped or thrown (where a "keyed in centimetres" style leniency would sit): still monotone
+            ctx.violations(examine(dict(base, age=None, lo=hi, hi=FAR), ctx))
+            ctx.label('far-range-field-sweeps')
         if not esaa:
             # the same sweep with option calls interleaved (state must not leak between calls)
             sweep(dict(base, age=None, perturb=37, reverse=True), 0, hi, nwin=4 if not thorough else 12, width=1500)
@@ -266,6 +273,9 @@ def shard(ctx, payload):
                 ctx.violations(examine(dict(base, lo=lo, hi=hi), ctx))
             else:
                 sweep(base, lo, hi, points=[lo], nwin=8, width=2000)
+                if hi < FAR:
+                    ctx.violations(examine(dict(base, lo=hi, hi=FAR, step=3), ctx))
+                    ctx.label('far-range-field-sweeps')
     elif sysname == 'tyrving':
         _, g, ev = payload
         params = junior.tyrving_tables()[g][ev]
@@ -292,6 +302,9 @@ def shard(ctx, payload):
                 lo, hi, pts = max(0, zero - 60), b0 + int(600 / float(mults[0])), [b0, b1, zero]
             base = {'system': 'tyrving', 'gender': g, 'event': ev, 'age': age}
             sweep(dict(base, form='float'), lo, hi, points=pts, nwin=3, width=1200)
+            if kind != 'race' and hi < FAR and age in (junior.tyrving_ages(params)[0], junior.tyrving_ages(params)[-1]):
+                ctx.violations(examine(dict(base, form='float', lo=hi, hi=FAR, step=2), ctx))
+                ctx.label('far-range-field-sweeps')
             if age == junior.tyrving_ages(params)[0]:
                 for sp in caller_spellings(ev, rng, 2):
                     sweep(dict(base, form='float', spelling=sp), lo, hi, points=pts[:1], nwin=1, width=300, full=False)
@@ -318,6 +331,9 @@ def shard(ctx, payload):
         a, b = sorted((r1, r2))
         lo, hi = max(0, int((a - 12 * r0) * 100) - 50), int((b + 12 * r0) * 100) + 50
         ctx.violations(examine({'system': 'qkids', 'comp': ct, 'event': ev, 'lo': lo, 'hi': hi}, ctx))
+        far = FAR if not athlib.PAT_RUN.match(ev) else 2 * hi
+        ctx.violations(examine({'system': 'qkids', 'comp': ct, 'event': ev, 'lo': hi, 'hi': far}, ctx))
+        ctx.label('far-range-field-sweeps')
         for sp in caller_spellings(ev, rng, 3):
             ctx.violations(examine({'system': 'qkids', 'comp': ct, 'event': ev, 'spelling': sp, 'lo': lo, 'hi': hi}, ctx))
             ctx.label('caller-spelling-sweeps')
@@ -329,11 +345,17 @@ def shard(ctx, payload):
         span = int(max(inc * 100 * 40, 400))
         lo, hi = max(0, min(ts) - span), max(ts) + span
         ctx.violations(examine({'system': 'sportshall', 'event': ev, 'lo': lo, 'hi': hi}, ctx))
+        far = FAR if ev in junior.SH_HIGH else 2 * hi
+        ctx.violations(examine({'system': 'sportshall', 'event': ev, 'lo': hi, 'hi': far}, ctx))
+        ctx.label('far-range-field-sweeps')
     elif sysname == 'bulgarian':
         _, key = payload
         t = junior.bulgarian_tables()[key]
         a, b = sorted((t['min'], t['max']))
         ctx.violations(examine({'system': 'bulgarian', 'table': key, 'lo': max(0, a - 150), 'hi': b + 150}, ctx))
+        far = FAR if key[4:] not in junior.BG_TIMED else 2 * (b + 150)
+        ctx.violations(examine({'system': 'bulgarian', 'table': key, 'lo': b + 150, 'hi': far}, ctx))
+        ctx.label('far-range-field-sweeps')
 
 
 def run(ctx):
